@@ -167,13 +167,57 @@ pub enum Pre {
 pub struct Proj {
     pub g: Graph,
     pub style: Style,
+    pub layout: bool,
 }
 
+thread_local! {
+    /// when set, the files of a project live in different directories and use the three source-name shapes
+    pub static LAYOUT: std::cell::Cell<bool> = const { std::cell::Cell::new(false) };
+}
+const LAYOUT_DIRS: [&str; 5] = ["", "sub/", "sub/deep/", "", "sub/"];
+pub fn dir_of_file(i: usize) -> &'static str {
+    if LAYOUT.with(|l| l.get()) {
+        LAYOUT_DIRS[i]
+    } else {
+        ""
+    }
+}
 pub fn src_name(i: usize) -> String {
-    format!("{}.txt.txtpp", NAMES[i])
+    if LAYOUT.with(|l| l.get()) {
+        match i % 3 {
+            0 => format!("{}{}.txt.txtpp", LAYOUT_DIRS[i], NAMES[i]),
+            1 => format!("{}{}.txtpp.txt", LAYOUT_DIRS[i], NAMES[i]),
+            _ => format!("{}{}.txtpp", LAYOUT_DIRS[i], NAMES[i]),
+        }
+    } else {
+        format!("{}.txt.txtpp", NAMES[i])
+    }
 }
 pub fn out_name(i: usize) -> String {
-    format!("{}.txt", NAMES[i])
+    if LAYOUT.with(|l| l.get()) {
+        match i % 3 {
+            2 => format!("{}{}", LAYOUT_DIRS[i], NAMES[i]),
+            _ => format!("{}{}.txt", LAYOUT_DIRS[i], NAMES[i]),
+        }
+    } else {
+        format!("{}.txt", NAMES[i])
+    }
+}
+/// path of file j's output as written in an include directive of file i
+pub fn rel_out(i: usize, j: usize) -> String {
+    if !LAYOUT.with(|l| l.get()) {
+        return format!("{}.txt", NAMES[j]);
+    }
+    let from: Vec<&str> = LAYOUT_DIRS[i].split('/').filter(|s| !s.is_empty()).collect();
+    let to = out_name(j);
+    let t: Vec<&str> = to.split('/').collect();
+    let mut k = 0;
+    while k < from.len() && k + 1 < t.len() && from[k] == t[k] {
+        k += 1;
+    }
+    let mut parts: Vec<String> = vec!["..".to_string(); from.len() - k];
+    parts.extend(t[k..].iter().map(|s| s.to_string()));
+    parts.join("/")
 }
 
 impl Proj {
@@ -181,21 +225,22 @@ impl Proj {
         let x = NAMES[i];
         let mut s = format!("{x}-head\n");
         for (k, j) in self.g.deps(i).into_iter().enumerate() {
-            let y = NAMES[j];
+            let y = rel_out(i, j);
+            let y = y.as_str();
             let after = match self.style {
                 Style::Include | Style::Marker | Style::NoTail | Style::Dup => false,
                 Style::After => true,
                 Style::Mixed => k % 2 == 1,
             };
             if after {
-                s.push_str(&format!("TXTPP#after {y}.txt\n-TXTPP#run cat {y}.txt\n"));
+                s.push_str(&format!("TXTPP#after {y}\n-TXTPP#run cat {y}\n"));
             } else {
-                s.push_str(&format!("TXTPP#include {y}.txt\n"));
+                s.push_str(&format!("TXTPP#include {y}\n"));
             }
         }
         if self.style == Style::Dup {
             for j in self.g.deps(i) {
-                s.push_str(&format!("TXTPP#include ./{}.txt\n", NAMES[j]));
+                s.push_str(&format!("TXTPP#include ./{}\n", rel_out(i, j)));
             }
         }
         if self.style == Style::Marker {
@@ -231,7 +276,7 @@ impl Proj {
         Some(s)
     }
     pub fn describe(&self) -> String {
-        format!("{} style={:?}", self.g.describe(), self.style)
+        format!("{} style={:?}{}", self.g.describe(), self.style, if self.layout { " layout=dirs+shapes" } else { "" })
     }
 }
 
@@ -269,6 +314,7 @@ impl Case {
             "engine": "S",
             "n": self.proj.g.n, "adj": self.proj.g.adj, "edges": self.proj.g.describe(),
             "style": format!("{:?}", self.proj.style),
+            "layout": self.proj.layout,
             "inputs": self.inputs, "roots": self.roots,
             "pre": format!("{:?}", self.pre), "mode": format!("{:?}", self.mode),
             "threads": self.threads, "recursive": self.recursive,
@@ -293,6 +339,7 @@ impl Case {
             proj: Proj {
                 g: Graph { n: v["n"].as_u64().unwrap() as usize, adj: v["adj"].as_u64().unwrap() as u32 },
                 style,
+                layout: v["layout"].as_bool().unwrap_or(false),
             },
             inputs: v["inputs"].as_array().unwrap().iter().map(|x| x.as_str().unwrap().to_string()).collect(),
             roots: v["roots"].as_array().unwrap().iter().map(|x| x.as_u64().unwrap() as usize).collect(),
@@ -352,12 +399,14 @@ impl CaseEnv {
     }
     /// (re)create the project tree in its pre-state
     pub fn reset(&self, case: &Case) {
+        LAYOUT.with(|l| l.set(case.proj.layout));
         let base = self.base();
         let _ = std::fs::remove_dir_all(&base);
         let _ = std::fs::remove_dir_all(self.markers());
         std::fs::create_dir_all(&base).unwrap();
         std::fs::create_dir_all(self.markers()).unwrap();
         let n = case.proj.g.n;
+        std::fs::create_dir_all(base.join("sub/deep")).unwrap();
         for i in 0..n {
             std::fs::write(base.join(src_name(i)), case.proj.source(i, &self.markers())).unwrap();
             match case.pre {
@@ -649,6 +698,19 @@ fn sel_cases(proj: &Proj, pres: &[Pre], modes: &[Mode], subsets: bool) -> Vec<Ca
     v
 }
 
+fn layout_cases(g: &Graph, style: Style) -> Vec<Case> {
+    LAYOUT.with(|l| l.set(true));
+    let proj = Proj { g: *g, style, layout: true };
+    let n = g.n;
+    let mut v = vec![];
+    let mk = |inputs: Vec<String>, roots: Vec<usize>, recursive: bool| Case { proj: proj.clone(), inputs, roots, pre: Pre::Stale, mode: Mode::Build, threads: 0, extra: Tree::new(), recursive };
+    v.push(mk(vec![".".into()], (0..n).collect(), true));
+    v.push(mk(vec![out_name(0)], vec![0], false));
+    v.push(mk((0..n).rev().map(src_name).collect(), (0..n).collect(), false));
+    LAYOUT.with(|l| l.set(false));
+    v
+}
+
 fn alias_cases(proj: &Proj, thorough: bool) -> Vec<Case> {
     // duplicates and aliases of file a (index 0), C03
     let mut v = vec![];
@@ -712,7 +774,7 @@ pub fn plan(prop: &str, thorough: bool) -> Vec<Case> {
                     if (style == Style::NoTail || style == Style::Dup) && g.edges().is_empty() {
                         continue;
                     }
-                    let proj = Proj { g: *g, style };
+                    let proj = Proj { g: *g, style, layout: false };
                     let (pres, modes): (&[Pre], Vec<Mode>) = if thorough {
                         (&[Pre::Stale, Pre::Absent], vec![Mode::Build, Mode::InMemoryBuild, Mode::Verify])
                     } else if style == Style::Include {
@@ -724,20 +786,24 @@ pub fn plan(prop: &str, thorough: bool) -> Vec<Case> {
                 }
             }
             for g in g4.iter().filter(|g| g.acyclic()) {
-                let proj = Proj { g: *g, style: Style::Include };
+                let proj = Proj { g: *g, style: Style::Include, layout: false };
                 let (pres, modes): (&[Pre], Vec<Mode>) =
                     if thorough { (&[Pre::Stale, Pre::Absent], vec![Mode::Build]) } else { (&[Pre::Stale], vec![Mode::Build]) };
                 cases.extend(sel_cases(&proj, pres, &modes, true));
                 if !g.edges().is_empty() {
                     // the last dependency directive is the last line of the file: directory input only at 4 files
-                    let proj = Proj { g: *g, style: Style::NoTail };
+                    let proj = Proj { g: *g, style: Style::NoTail, layout: false };
                     cases.extend(sel_cases(&proj, &[Pre::Stale], &[Mode::Build], !thorough));
                 }
+            }
+            for g in graphs.iter().filter(|g| g.acyclic() && g.n == 3 && !g.edges().is_empty()) {
+                cases.extend(layout_cases(g, Style::Include));
+                cases.extend(layout_cases(g, Style::After));
             }
             if thorough {
                 // five files: every isomorphism class of DAGs, directory input and the first file by name
                 for g in dag_classes(5) {
-                    let proj = Proj { g, style: Style::Include };
+                    let proj = Proj { g, style: Style::Include, layout: false };
                     let mut cs = sel_cases(&proj, &[Pre::Stale], &[Mode::Build], true);
                     cs.retain(|c| c.inputs.len() == 1);
                     cases.extend(cs);
@@ -745,8 +811,12 @@ pub fn plan(prop: &str, thorough: bool) -> Vec<Case> {
             }
         }
         "C03" => {
+            // files spread over directories, all three source-name shapes, relative include paths with ../
+            for g in graphs.iter().filter(|g| g.n == 3 && (thorough || g.canonical() == g.adj)) {
+                cases.extend(layout_cases(g, Style::Marker));
+            }
             for g in graphs.iter() {
-                let proj = Proj { g: *g, style: Style::Marker };
+                let proj = Proj { g: *g, style: Style::Marker, layout: false };
                 let modes = if thorough { vec![Mode::Build, Mode::Verify, Mode::InMemoryBuild] } else { vec![Mode::Build] };
                 cases.extend(sel_cases(&proj, &[Pre::Stale], &modes, true));
                 if thorough || g.canonical() == g.adj {
@@ -754,7 +824,7 @@ pub fn plan(prop: &str, thorough: bool) -> Vec<Case> {
                 }
             }
             for g in g4.iter() {
-                let proj = Proj { g: *g, style: Style::Marker };
+                let proj = Proj { g: *g, style: Style::Marker, layout: false };
                 cases.extend(sel_cases(&proj, &[Pre::Stale], &[Mode::Build], thorough));
                 if !thorough {
                     // aliases that scan the directory twice multiply the schedule count: 4-file graphs get the file aliases only
@@ -764,12 +834,12 @@ pub fn plan(prop: &str, thorough: bool) -> Vec<Case> {
         }
         "C05" => {
             for g in graphs.iter() {
-                let proj = Proj { g: *g, style: Style::Include };
+                let proj = Proj { g: *g, style: Style::Include, layout: false };
                 let modes = if thorough || g.n <= 2 { vec![Mode::Build, Mode::InMemoryBuild, Mode::Verify] } else { vec![Mode::Build, Mode::Verify] };
                 cases.extend(sel_cases(&proj, &[Pre::Stale], &modes, true));
             }
             for g in g4.iter() {
-                let proj = Proj { g: *g, style: Style::Include };
+                let proj = Proj { g: *g, style: Style::Include, layout: false };
                 cases.extend(sel_cases(&proj, &[Pre::Stale], &[Mode::Build], true));
             }
         }
@@ -832,6 +902,7 @@ pub fn run_property(prop: &str, tier: &str) -> i32 {
 }
 
 fn run_case(prop: &str, rep: &Report, case0: &Case, ci: usize) {
+    LAYOUT.with(|l| l.set(case0.proj.layout));
     let env = CaseEnv::new();
     let case = resolve_abs(case0, &env);
     let mut outcomes: BTreeMap<String, usize> = BTreeMap::new();
@@ -859,7 +930,7 @@ fn run_case(prop: &str, rep: &Report, case0: &Case, ci: usize) {
         // bind the abstract protocol model to the code: same choices, same begin/end events, same verdict
         // (verify of a cyclic project fails early on a missing output: another protocol path, not modelled)
         let verify_cyclic = case.mode == Mode::Verify && case.proj.g.cyc().intersection(&case.required()).next().is_some();
-        if case.extra.is_empty() && case.threads == 0 && o.run.clean() && !verify_cyclic {
+        if case.extra.is_empty() && case.threads == 0 && o.run.clean() && !verify_cyclic && !case.proj.layout {
             let scan = case.inputs == ["."];
             let plain = scan || case.inputs.iter().all(|i| (0..case.proj.g.n).any(|k| out_name(k) == *i));
             if plain {
@@ -996,7 +1067,7 @@ fn model_phase(prop: &str, rep: &Report) {
                     if let Some(msg) = crate::smodel::check_model(&g, &roots, scan, &mut stats) {
                         // confirm on the real coordinator
                         let case = Case {
-                            proj: Proj { g, style: if prop == "C03" { Style::Marker } else { Style::Include } },
+                            proj: Proj { g, style: if prop == "C03" { Style::Marker } else { Style::Include }, layout: false },
                             inputs: if scan { vec![".".into()] } else { vec![out_name(0)] },
                             roots: if scan { (0..n).collect() } else { roots.clone() },
                             pre: Pre::Stale,
@@ -1067,7 +1138,7 @@ fn extra_checks(prop: &str, rep: &Report) {
             return;
         }
         let n = g.n;
-        let proj = Proj { g: *g, style };
+        let proj = Proj { g: *g, style, layout: false };
         let all: Vec<usize> = (0..n).collect();
         for (inputs, roots) in [(vec![".".to_string()], all.clone()), (all.iter().map(|&i| out_name(i)).collect(), all.clone())] {
             let case = Case { proj: proj.clone(), inputs, roots, pre: Pre::Stale, mode: Mode::Build, threads: 0, extra: Tree::new(), recursive: false };
@@ -1142,6 +1213,7 @@ fn extra_checks(prop: &str, rep: &Report) {
 /// Re-execute one replay file for engine S; returns true if it still fails
 pub fn replay(prop: &str, v: &Value) -> bool {
     let case0 = Case::from_json(&v["case"]);
+    LAYOUT.with(|l| l.set(case0.proj.layout));
     let env = CaseEnv::new();
     let case = resolve_abs(&case0, &env);
     let explore = if v["explore"].as_str() == Some("unreduced") { Explore::Unreduced { early_idle_bound: 1 } } else { Explore::Reduced };
